@@ -212,6 +212,10 @@ def match_known(prop, res, known):
             k, v = t.split("=", 1)
             if td.get(k) != v:
                 ok = False
+        for t in e.get("tags_not", []):
+            k, v = t.split("=", 1)
+            if td.get(k) == v:
+                ok = False
         for sub in e.get("detail_contains", []):
             if sub not in res.get("detail", ""):
                 ok = False
@@ -500,7 +504,13 @@ def cmd_check(prop, tier, runs, jobs, seed):
                 for d in done:
                     futs.pop(d)
                     v, f, s = d.result()
-                    raw += v + f
+                    for item in v + f:
+                        # a raw failure whose un-minimised signature already equals a listed finding is counted and skipped
+                        pre = match_known(prop, item, known)
+                        if pre:
+                            known_hits[pre["id"]] = known_hits.get(pre["id"], 0) + 1
+                        else:
+                            raw.append(item)
                     stats += s
                     if len(raw) >= 40:
                         stop = True
@@ -640,6 +650,27 @@ def cmd_replay(path):
     return 0
 
 
+def cmd_pin(src, ident):
+    """re-executes the lanes of a replay file and writes findings/<ident>.replay.json with refreshed results"""
+    with open(src) as f:
+        rp = json.load(f)
+    os.makedirs(os.path.join(VERIF, "out", "tmp"), exist_ok=True)
+    flavour = rp.get("flavour", "asan")
+    build(flavour)
+    res = exec_plan(flavour, rp["property"], rp["lanes"], describe=True)
+    if res["cls"] == "OK":
+        log("plan does not fail: not pinned")
+        return 1
+    lanes = res["lanes"] or rp["lanes"]
+    out = dict(property=rp["property"], flavour=flavour, cls=res["cls"], site=res.get("site", ""), tags=res.get("tags", ""), detail=res.get("detail", ""),
+               event_hash=res.get("hash", ""), lanes=lanes, lane_sizes=dict((k, len(v)) for k, v in lanes.items()), plan=res["notes"][:200])
+    path = os.path.join(VERIF, "findings", ident + ".replay.json")
+    with open(path, "w") as f:
+        json.dump(out, f, indent=1)
+    log("pinned %s: %s %s [%s]" % (path, res["cls"], res.get("site", ""), res.get("tags", "")))
+    return 0
+
+
 def cmd_determinism(prop, runs, seed):
     """runs the same seeds twice (one worker in order, many workers in shuffled chunks) and diffs the per-run hashes"""
     os.makedirs(os.path.join(VERIF, "out", "tmp"), exist_ok=True)
@@ -688,6 +719,8 @@ def main():
         return cmd_check(args[1], tier, int(runs) if runs else None, int(opt("--jobs", "16")), seed)
     if args[0] == "replay":
         return cmd_replay(args[1])
+    if args[0] == "pin":
+        return cmd_pin(args[1], args[2])
     if args[0] == "determinism":
         return cmd_determinism(args[1], int(opt("--runs", "2000")), seed)
     print(__doc__)
